@@ -63,6 +63,8 @@ def plan(tier, seed):
     for i in range(nshard):
         shards.append(dict(kind='walk', seed=seed * 1000 + i, n=n // nshard + 1, length=length,
                            retry=CFGS['thorough'][i % 5], defer=bool(i % 2)))
+        shards.append(dict(kind='walk', seed=seed * 1000 + 500 + i, n=n // nshard + 1, length=length, fuzz=150 if tier == 'quick' else 1500,
+                           retry=CFGS['thorough'][i % 5], defer=bool(i % 2)))
     return shards
 
 
@@ -107,8 +109,12 @@ def run_shard(sh):
     else:
         rng = random.Random(sh['seed'])
         viol = {}
+        alpha = S.ALPHABET_C01
+        if sh.get('fuzz'):
+            # hostile well-framed messages (mutated unit-test corpus) among the peer's messages
+            alpha = ['OPEN', 'KA', 'OPEN_h9', 'NOTI_CEASE', 'BADLEN', 'UPD1'] + S.fuzz_alphabet(rng, sh['fuzz'])
         for i in range(sh['n']):
-            r = S.random_walk(cfg, [LedgerMonitor], S.ALPHABET_C01, rng, sh['length'], multi=True,
+            r = S.random_walk(cfg, [LedgerMonitor], alpha, rng, sh['length'], multi=True,
                               weights={'TICK': 6, 'ACCEPT': 3, 'REFUSE': 2, 'STOP': 0.7, 'START': 1.5})
             r.monitors[0].final()
             note(r)
@@ -119,7 +125,7 @@ def run_shard(sh):
             if i == 0:
                 res['samples'].append(dict(retry=sh['retry'], walk=r.seq[:40]))
         res['counters'] = dict(walks=sh['n'], connect_attempts_observed=stats['attempts'], late_accepts=stats['late'],
-                               writes_observed=stats['writes'])
+                               writes_observed=stats['writes'], fuzzed_frames_in_alphabet=sh.get('fuzz', 0))
         res['maxima'] = dict(max_simultaneous_live_connectors=stats['max_live'])
         res['violations'] = list(viol.values())
     return res
@@ -138,6 +144,6 @@ def floors(m, tier):
 
 
 def replay(rep):
-    r = S.run_seq(rep['cfg'], rep['events'], [LedgerMonitor])
+    r = S.run_seq(rep['cfg'], rep['events'], [LedgerMonitor], fuzz=rep.get('fuzz'))
     r.monitors[0].final()
     return r.collect()
